@@ -15,7 +15,7 @@ RULE = ('seeded charts on a queued host driven by histories of defer/recall/post
 ASSUMPTIONS = ['no schedule dimension']
 PROBES = ['defer_on_full_deferred_queue']
 PLAN = {
-  'quick': {'strata': {'defer-recall': 5000, 'small-capacity': 3000}, 'wall_s': 300, 'chunk': 100, 'min_conclusive': 1000},
+  'quick': {'strata': {'defer-recall': 8000, 'small-capacity': 5000}, 'wall_s': 300, 'chunk': 100, 'min_conclusive': 1000},
   'thorough': {'strata': {'defer-recall': 120000, 'small-capacity': 60000}, 'wall_s': 900, 'chunk': 250, 'min_conclusive': 1000},
 }
 ORACLES = [lambda run, res: co.check_queue_order(run, res, want=('C15',))]
